@@ -34,6 +34,9 @@ enum Act {
     ForwardBlackhole(u64),
     /// forward for d1 ms, then swallow what the client sends (its stream request stays unanswered) for d2 ms, then cut the connection
     ForwardSwallowCut(u64, u64),
+    /// let the WebSocket upgrade through (until the server's response header has been relayed), then swallow everything
+    /// the client sends (the stream request it re-issues right after connecting stays unanswered) and cut after d ms
+    UpgradeThenSwallowCut(u64),
     Healthy,
 }
 
@@ -84,12 +87,13 @@ async fn gate(listener: TcpListener, server: SocketAddr, script: Vec<Act>, log: 
                     c.write_all(b"HTTP/1.1 404 Not Found\r\ncontent-length: 0\r\n\r\n").await.ok();
                     c.shutdown().await.ok();
                 }
-                Act::ForwardCut(_) | Act::ForwardWsClose(_) | Act::ForwardBlackhole(_) | Act::ForwardSwallowCut(..) | Act::Healthy => {
+                Act::ForwardCut(_) | Act::ForwardWsClose(_) | Act::ForwardBlackhole(_) | Act::ForwardSwallowCut(..) | Act::UpgradeThenSwallowCut(_) | Act::Healthy => {
                     let Ok(mut s) = TcpStream::connect(server).await else { return };
                     c.set_nodelay(true).ok();
                     s.set_nodelay(true).ok();
                     let limit = match act {
                         Act::ForwardCut(d) | Act::ForwardWsClose(d) | Act::ForwardBlackhole(d) | Act::ForwardSwallowCut(d, _) => Some(Duration::from_millis(d)),
+                        Act::UpgradeThenSwallowCut(_) => Some(Duration::from_secs(5)),
                         _ => None,
                     };
                     let deadline = limit.map(|d| tokio::time::Instant::now() + d);
@@ -97,12 +101,33 @@ async fn gate(listener: TcpListener, server: SocketAddr, script: Vec<Act>, log: 
                     let (mut sr, mut sw) = s.split();
                     let mut b1 = vec![0u8; 65536];
                     let mut b2 = vec![0u8; 65536];
+                    let until_upgraded = matches!(act, Act::UpgradeThenSwallowCut(_));
+                    let mut from_server: Vec<u8> = Vec::new();
                     loop {
                         tokio::select! {
                             () = async { match deadline { Some(d) => tokio::time::sleep_until(d).await, None => std::future::pending().await } } => break,
                             r = cr.read(&mut b1) => match r { Ok(n) if n > 0 => { if sw.write_all(&b1[..n]).await.is_err() { break; } } _ => break },
-                            r = sr.read(&mut b2) => match r { Ok(n) if n > 0 => { if cw.write_all(&b2[..n]).await.is_err() { break; } } _ => break },
+                            r = sr.read(&mut b2) => match r {
+                                Ok(n) if n > 0 => {
+                                    if cw.write_all(&b2[..n]).await.is_err() { break; }
+                                    if until_upgraded {
+                                        from_server.extend_from_slice(&b2[..n]);
+                                        if net::find(&from_server, b"\r\n\r\n").is_some() { break; }
+                                    }
+                                }
+                                _ => break,
+                            },
                         }
+                    }
+                    if let Act::UpgradeThenSwallowCut(d2) = act {
+                        let _ = tokio::time::timeout(Duration::from_millis(d2), async {
+                            loop {
+                                match cr.read(&mut b1).await {
+                                    Ok(0) | Err(_) => break,
+                                    Ok(_) => {}
+                                }
+                            }
+                        }).await;
                     }
                     if let Act::ForwardSwallowCut(_, d2) = act {
                         let _ = tokio::time::timeout(Duration::from_millis(d2), async {
@@ -249,7 +274,9 @@ async fn run_scenario(sc: Scenario, seed: u64) -> Outcome {
     let lport = net::free_tcp_port(false);
     let luport = net::free_udp_port();
     let args: &'static ClientArgs = Box::leak(Box::new(ClientArgs {
-        server: ServerUrl::from_str(&format!("ws://{gate_addr}/ws")).expect("url"),
+        // scenarios named tls-*: a wss:// URL, so that a stalled attempt stalls inside the TLS session setup
+        server: ServerUrl::from_str(&format!("{}://{gate_addr}/ws", if sc.name.starts_with("tls-") { "wss" } else { "ws" })).expect("url"),
+        tls_skip_verify: sc.name.starts_with("tls-"),
         remote: vec![
             Remote::from_str(&format!("127.0.0.1:{lport}:127.0.0.1:{tport}")).expect("remote"),
             Remote::from_str(&format!("127.0.0.1:{luport}:127.0.0.1:{uport}/udp")).expect("remote"),
@@ -367,6 +394,11 @@ fn scenarios(rng: &mut Rng64, thorough: bool) -> Vec<Scenario> {
         Scenario { name: "stream-request-timeout", script: vec![Act::ForwardBlackhole(150), Act::Healthy], max_retry_count: 0, max_retry_interval: 400, converse_at: Some(250), udp_after_ms: None, expect_exit: None, observe_ms: 4500 },
         // the tunnel is lost while a stream request is outstanding (Connect sent, never answered): the request is served by the next connection
         Scenario { name: "lost-with-request-outstanding", script: vec![Act::ForwardSwallowCut(200, 400), Act::Healthy], max_retry_count: 0, max_retry_interval: 400, converse_at: Some(350), udp_after_ms: None, expect_exit: None, observe_ms: 3500 },
+        // a parked request, and connections that complete the upgrade but die while that request is retried: every one of them
+        // was a successful connection, so every delay is the shortest one
+        Scenario { name: "parked-request-retried-on-dying-connections", script: vec![Act::ForwardSwallowCut(100, 120), Act::UpgradeThenSwallowCut(60), Act::UpgradeThenSwallowCut(60), Act::UpgradeThenSwallowCut(60), Act::Healthy], max_retry_count: 0, max_retry_interval: 1600, converse_at: Some(150), udp_after_ms: None, expect_exit: None, observe_ms: 4500 },
+        // the attempt stalls before the WebSocket upgrade can even be sent (TLS session setup against a silent peer)
+        Scenario { name: "tls-stall-retry-limit-2", script: vec![Act::Stall; 8], max_retry_count: 2, max_retry_interval: 400, converse_at: None, udp_after_ms: None, expect_exit: Some("MaxRetryCountReached"), observe_ms: 6500 },
         // a long outage in little time: 100 consecutive failures with a tiny retry cap, then the server is back
         Scenario { name: "long-outage-100", script: { let mut v = vec![Act::Rst; 100]; v.push(Act::Healthy); v }, max_retry_count: 0, max_retry_interval: 3, converse_at: Some(50), udp_after_ms: None, expect_exit: None, observe_ms: 3500 },
     ];
@@ -405,7 +437,7 @@ fn judge(st: &mut Stats, sc: &Scenario, outs: &[Outcome], seed: u64) {
         let mut k: u32 = 0; // consecutive failures so far
         for w in o.attempts.windows(2) {
             let (a, b) = (&w[0], &w[1]);
-            let succeeded = matches!(a.2, Act::ForwardCut(_) | Act::ForwardWsClose(_) | Act::ForwardBlackhole(_) | Act::ForwardSwallowCut(..) | Act::Healthy);
+            let succeeded = matches!(a.2, Act::ForwardCut(_) | Act::ForwardWsClose(_) | Act::ForwardBlackhole(_) | Act::ForwardSwallowCut(..) | Act::UpgradeThenSwallowCut(_) | Act::Healthy);
             if succeeded {
                 k = 0;
             }
@@ -471,6 +503,15 @@ fn judge(st: &mut Stats, sc: &Scenario, outs: &[Outcome], seed: u64) {
                     None => {
                         if o.attempts.len() > want {
                             st.violation(Violation { signature: "retry-limit-ignored".into(), detail: format!("[{}] max_retry_count = {}: {} attempts were made and the client is still running", sc.name, sc.max_retry_count, o.attempts.len()), replay: replay(o) });
+                        } else if let (Some(last), true) = (o.attempts.last().filter(|a| a.2 == Act::Stall), o.max_timer_overshoot_ms < 500) {
+                            // a stalled attempt must be cut after handshake_timeout (1 s); it has been open for much longer,
+                            // while a 5 ms timer task on the same runtime never overshot by 500 ms (load witness)
+                            let open_ms = (o.t0 + Duration::from_millis(sc.observe_ms)).saturating_duration_since(last.1).as_millis();
+                            if open_ms > 4000 {
+                                st.violation(Violation { signature: "stalled-attempt-not-cut".into(), detail: format!("[{}] attempt #{} was accepted and then met silence; handshake_timeout is 1 s, but {open_ms} ms later the client is still inside that attempt (no retry, no give-up)", sc.name, last.0), replay: replay(o) });
+                            } else {
+                                st.inconclusive.push(format!("c19 [{}]: client still running at the end of the observation window", sc.name));
+                            }
                         } else if o.quiescent_at_end {
                             st.violation(Violation { signature: "no-give-up".into(), detail: format!("[{}] all {} attempts failed but the client neither retried nor gave up (process quiescent)", sc.name, o.attempts.len()), replay: replay(o) });
                         } else {
